@@ -129,13 +129,18 @@ def main() -> int:
     crashed = None
     try:
         drv.correspond(ctx)
-        if ctx.mismatches:
-            ctx.enlarge = True
-        drv.search(ctx)
     except common.CoqEvalError as e:
         crashed = "model evaluation failed: " + str(e)[-600:]
     except Exception:
-        crashed = "driver crashed: " + traceback.format_exc()[-1500:]
+        crashed = "driver crashed in the correspondence: " + traceback.format_exc()[-1500:]
+    if ctx.mismatches or crashed:
+        ctx.enlarge = True
+    try:  # the search for a failing input runs even when the correspondence could not be completed
+        drv.search(ctx)
+    except common.CoqEvalError as e:
+        crashed = (crashed or "") + " model evaluation failed: " + str(e)[-600:]
+    except Exception:
+        crashed = (crashed + "\n" if crashed else "") + "driver crashed in the search: " + traceback.format_exc()[-1500:]
     if crashed:
         ctx.mismatch("harness", "driver execution", crashed, "-", key="harness")
         ctx.mismatches.insert(0, ctx.mismatches.pop())
